@@ -540,8 +540,12 @@ func (s *controlledSelector) HandleBindingRequest(message *stun.Message, local, 
 			// MUST remove the candidate pair from the valid list, set the
 			// candidate pair state to Failed, and set the checklist state to
 			// Failed.
-			pair.nominateOnBindingSuccess = true
-			pair.deferredNominationValue = nominationValue
+			// A nomination without a value does not replace the deferred value of an accepted
+			// renomination that is still waiting for this pair to become valid.
+			if nominationValue != nil || pair.deferredNominationValue == nil {
+				pair.nominateOnBindingSuccess = true
+				pair.deferredNominationValue = nominationValue
+			}
 		}
 	}
 
